@@ -2032,3 +2032,18 @@ M2("c05-stop-drain-wakes-a-missing-event", "C05", "R6", [{"file": "state.py", "f
 M("c13-every-poll-one-second-later", "C13", "R3.decision-implies-effect", "operation/wait_for_condition.py",
   "            if delay_seconds is not None and delay_seconds < 1:", "            if delay_seconds is not None:",
   desc="mutscan 4: the clamp applies to every decided delay")
+M("c07-running-wait-full-duration-subtracted", "C07", "R1.replayed-wait-parks-until-its-recorded-end", "operation/wait.py",
+  "            resume_at = min(scheduled_end, now + datetime.timedelta(seconds=self.seconds))", "            resume_at = min(scheduled_end, now - datetime.timedelta(seconds=self.seconds))",
+  desc="mutscan 4: the bound lies in the past, so a running wait re-looks every second")
+M("c07-running-wait-bound-written-the-other-way-twin", "C07", "R1.replayed-wait-parks-until-its-recorded-end", "operation/wait.py",
+  "            resume_at = min(scheduled_end, now + datetime.timedelta(seconds=self.seconds))", "            resume_at = min(datetime.timedelta(seconds=self.seconds) + now, scheduled_end)",
+  expect="silent", desc="benign twin: operands exchanged")
+M("c09-counters-total-and-minimum-exchanged", "C09", "R3.counters-receive-the-configured-thresholds", "concurrency/executor.py",
+  "            len(executables),\n            min_successful,\n            tolerated_failure_count,", "            min_successful,\n            len(executables),\n            tolerated_failure_count,",
+  desc="mutscan 4: arguments exchanged; equal under the default policy")
+M("c09-counters-by-keyword-twin", "C09", "R3.counters-receive-the-configured-thresholds", "concurrency/executor.py",
+  "            len(executables),\n            min_successful,\n            tolerated_failure_count,\n            tolerated_failure_percentage,",
+  "            min_successful=min_successful,\n            total_tasks=len(executables),\n            tolerated_failure_count=tolerated_failure_count,\n            tolerated_failure_percentage=tolerated_failure_percentage,",
+  expect="silent", desc="benign twin: the same binding by keyword, in another order")
+M("c09-counters-store-crossed", "C09", "R3.counters-receive-the-configured-thresholds", "concurrency/models.py",
+  "        self.total_tasks: int = total_tasks\n        self.min_successful: int = min_successful", "        self.total_tasks: int = min_successful\n        self.min_successful: int = total_tasks")
